@@ -9,6 +9,7 @@ moves / consumer reads / cancel / stop.
 import Neutrino.Lemmas.Subs
 import Neutrino.Lemmas.SubsIso
 import Neutrino.Lemmas.SubsDrain
+import Neutrino.Lemmas.SubsWindow
 import Neutrino.Spec.Subs
 import Neutrino.Gen.Subs
 namespace Neutrino.Subs
@@ -68,6 +69,41 @@ theorem C11_complete (evs : List Ev) (id : Nat) (x : Sub)
   obtain ⟨y, hy, hyc, hyq, hyd, _⟩ := drain_run id _ (run init evs) x hx hopen rfl
   refine ⟨y, by rw [run_append]; exact hy, hyc, hyq, ?_⟩
   rw [hyd, h.conserve, h.sinceLive hlive]
+
+/-- **Nothing falls between backlog and live stream.**  Whatever the source emits
+(`w`, any length) while the handler is busy with subscriber `id`'s registration —
+i.e. after the backlog snapshot `bl` was taken and before the handler is free
+again — waits at the source, is fanned out after the registration, and is owed to
+the new subscriber right after its backlog: its stream is exactly `bl ++ w`, in
+order, nothing lost and nothing twice.  (This is what breaks when the snapshot is
+taken outside the handler goroutine: see `C11_source_facts`,
+`backlogLookupCallers`.) -/
+theorem C11_registration_window (evs : List Ev) (id h : Nat) (bl w : List Ntfn)
+    (hrun : (run init evs).stopped = false) (hfresh : (run init evs).subs id = none)
+    (hsrc : (run init evs).src = []) :
+    ∃ x, (run init (evs ++ w.map Ev.emit ++ [.subscribe id h bl] ++
+              w.map (fun _ => Ev.handlerFanout))).subs id = some x ∧
+      x.backlog = bl ∧ x.since = w ∧ x.delivered ++ x.chan ++ x.queue = bl ++ w := by
+  -- the state when the handler finishes the registration step
+  have h1 : run init (evs ++ w.map Ev.emit) = { run init evs with src := w } := by
+    rw [run_append, run_emits, hsrc]; rfl
+  let x0 : Sub := { height := h, regAt := (run init evs).fanned.length, backlog := bl, queue := bl }
+  have h2 : run init (evs ++ w.map Ev.emit ++ [.subscribe id h bl]) =
+      { run init evs with src := w, subs := setSub (run init evs).subs id x0 } := by
+    rw [run_append, h1]
+    simp [run, step, hrun, hfresh, x0]
+  obtain ⟨_, _, hf, y, hy, hyl, hyr, hyb⟩ :=
+    run_fanouts w { run init evs with src := w, subs := setSub (run init evs).subs id x0 } []
+      hrun (by simp) id x0 (by simp [setSub]) rfl
+  have hf' : (run { run init evs with src := w, subs := setSub (run init evs).subs id x0 }
+      (w.map fun _ => Ev.handlerFanout)).fanned = (run init evs).fanned ++ w := hf
+  rw [← h2, ← run_append] at hy hf'
+  obtain ⟨hc, _, hlive, _, _⟩ := C11_prefix _ id y hy
+  have hs : y.since = w := by
+    rw [hlive hyl, hf', hyr]
+    show ((run init evs).fanned ++ w).drop (run init evs).fanned.length = w
+    simp
+  exact ⟨y, hy, hyb, hs, by rw [hc, hyb, hs]⟩
 
 /-- **Isolation**: deleting all of subscriber `B`'s events (its registration,
 its forwarder's moves, its reads or its never reading, its cancellation) from
